@@ -66,6 +66,30 @@ func genConcRules(r *core.Rand) []concRule {
 	return rules
 }
 
+func wildSpecific(r *core.Rand) ([]concRule, []concEvent) {
+	var rules []concRule
+	id := 0
+	add := func(kind string, n int) {
+		for j := 0; j < n; j++ {
+			rules = append(rules, concRule{name: fmt.Sprintf("r%d", id), kinds: []string{kind}, prio: r.Intn(3)})
+			id++
+		}
+	}
+	add("a.*", r.OneOf(3, 5, 6, 7, 9, 10, 11, 13))
+	if r.Chance(1, 3) {
+		add("*.*", r.OneOf(1, 3, 5))
+	}
+	segs := []string{"b", "c", "d"}
+	for _, sg := range segs {
+		add("a."+sg, r.Range(1, 3))
+	}
+	evs := make([]concEvent, r.Range(120, 400))
+	for i := range evs {
+		evs[i] = concEvent{kind: []string{"a", segs[r.Intn(len(segs))]}, state: map[interface{}]interface{}{"i": float64(i)}}
+	}
+	return rules, evs
+}
+
 type concEvent struct {
 	kind  []string
 	state map[interface{}]interface{}
@@ -137,6 +161,13 @@ func runConc(c *core.Ctx) {
 		r := c.Rng(stream, idx)
 		rules := genConcRules(r)
 		events := genConcEvents(r, r.Range(40, 160))
+		if idx%4 >= 2 {
+			// the layout of an ordinary program: several sinks on a wildcard kind
+			// (3, 5..7, 9.. of them: slice lengths with spare capacity behind them)
+			// next to sinks on the specific kinds below the same prefix; the
+			// events alternate between the specific kinds
+			rules, events = wildSpecific(r)
+		}
 		desc := func() map[string]interface{} {
 			var rs []string
 			for _, ru := range rules {
